@@ -1428,6 +1428,12 @@ int EGLPNUM_TYPENAME_ILLlib_delrows (
 	}
 	for (i = 0; i < num; i++)
 	{
+		if (rowmark[dellist[i]])
+		{
+			QSlog("EGLPNUM_TYPENAME_ILLlib_delrows called with row %d listed twice", dellist[i]);
+			rval = 1;
+			ILL_CLEANUP;
+		}
 		rowmark[dellist[i]] = 1;
 	}
 
@@ -1683,6 +1689,12 @@ int EGLPNUM_TYPENAME_ILLlib_delcols (
 	}
 	for (i = 0; i < num; i++)
 	{
+		if (colmark[qslp->structmap[dellist[i]]])
+		{
+			QSlog("EGLPNUM_TYPENAME_ILLlib_delcols called with column %d listed twice", dellist[i]);
+			rval = 1;
+			ILL_CLEANUP;
+		}
 		colmark[qslp->structmap[dellist[i]]] = 1;
 	}
 
